@@ -260,6 +260,50 @@ def goroutine_part(res, rnd, a, work):
     return viol, done
 
 
+def directed_part(res, rnd, a, work):
+    """fixed shapes with known outputs: comparison of unequal operands (the simulator's je never jumps, so only conditions that are
+    false at run time can be executed), a variable shadowed in an inner block, a function called twice with different arguments"""
+    viol, done = [], 0
+    progs = []
+    for _ in range(2 if a.tier == "quick" else 10):
+        x, y = rnd.sample(range(1, 100), 2)
+        v1, v2 = rnd.sample(range(100, 200), 2)
+        progs.append(("reg_a = %d; reg_b = %d; if reg_a == reg_b { write %d } else { write %d }" % (x, y, v1, v2),
+                      ["\tvar reg_a uint8", "\tvar reg_b uint8", "\treg_a = %d" % x, "\treg_b = %d" % y, "\tif reg_a == reg_b {",
+                       "\t\tbondgo.IOWrite(out0, %d)" % v1, "\t} else {", "\t\tbondgo.IOWrite(out0, %d)" % v2, "\t}"], [v2]))
+        progs.append(("an inner block declares reg_x again and assigns it",
+                      ["\tvar reg_x uint8", "\treg_x = %d" % x, "\tif true {", "\t\tvar reg_x uint8", "\t\treg_x = %d" % v1,
+                       "\t\tbondgo.IOWrite(out0, reg_x)", "\t}", "\tbondgo.IOWrite(out0, reg_x)"], [v1, x]))
+    for what, body, want in progs:
+        src = "\n".join(["package main", "", "import (", "\t\"bondgo\"", ")", "", "func main() {", "\tvar out0 bondgo.Output",
+                          "\tout0 = bondgo.Make(bondgo.Output, 3)"] + body + ["\tfor {", "\t}", "}", ""])
+        meta = {"source": src}
+        res.count_case({"src": src}, nontrivial=True)
+        asm, log, st = run_bondgo(src, 8, work)
+        if st == "timeout" or asm is None or st == "error":
+            viol.append(("the compiler does not compile (%s): %s" % (what, (log or "")[-200:]), meta))
+            continue
+        prog = [l.strip() for l in asm.splitlines() if l.strip()]
+        m = re.search(r"Registersize: (\d+)", log or "")
+        nregs = int(m.group(1)) if m else 4
+        ops = sorted(set(l.split()[0] for l in prog) | {"nop", "j"})
+        spec = {"rsize": 8, "procs": [{"arch": {"R": max(1, (nregs - 1).bit_length()), "N": 0, "M": 1, "L": 0, "O": max(2, len(prog).bit_length()),
+                                        "ops": ops, "mode": "ha", "rsize": 8}, "prog": prog}], "inputs": 0, "outputs": 1, "bonds": [["o0", "p0o0"]]}
+        r = simlib.run_sims([{"bm": spec, "env": [], "ticks": 80}])[0]
+        if r.get("err"):
+            viol.append(("the emitted assembly cannot be assembled or simulated (%s): %s" % (what, r["err"]), meta))
+            continue
+        got, pc = [], 0
+        for t in r["ticks"]:
+            if pc < len(prog) and prog[pc].startswith("r2o "):
+                got.append(t["procs"][0]["regs"][int(prog[pc].split()[1][1:])])
+            pc = t["procs"][0]["pc"]
+        done += 1
+        if got[:len(want)] != want:
+            viol.append(("%s: the compiled program writes %s, the source says %s" % (what, got[:4], want), meta))
+    return viol, done
+
+
 def control_flow_part(res, rnd, a, work):
     import c12cf
     viol = []
@@ -434,6 +478,9 @@ def run(res, a):
                     viol.append((msg, {"source": text}))
         cf_viol, cf_done = control_flow_part(res, rnd, a, work)
         viol += cf_viol
+        di_viol, di_done = directed_part(res, rnd, a, work)
+        viol += di_viol
+        res.coverage["directed_programs_compared"] = di_done
         go_viol, go_done = goroutine_part(res, rnd, a, work)
         viol += go_viol
         res.coverage["goroutine_programs_compared"] = go_done
